@@ -895,6 +895,11 @@ fn corpus_c13() -> Vec<(Project, String)>
 		(single(".addr 0x20000010; B later; NOP; .addr 0x2000000E; NOP; NOP; later:"), "V overflow | S 20000010 fee7 d | S 20000012 00bf i | S 2000000e 00bf i".into()),
 		(single(".addr 0x20000010; NOP; .addr 0x20000011; NOP;"), "V occupied | S 20000010 00bf i".into()),
 		(single(".addr 0x20000010; NOP; .addr 0x2000000F; .align 4;"), "V ok | S 20000010 00bf i | S 2000000f be i".into()),
+		// audit-C: padding longer than one 256-byte chunk of align.rs (no generated history pads more than 255 bytes)
+		(single(".addr 0x104; .align 1024; NOP;"), format!("V ok | S 104 {} i | S 400 00bf i", "be".repeat(764))),
+		(single(".addr 0x101; .align 512; .du8 1; .align 0x300; NOP;"), format!("V ok | S 101 {} i | S 200 01 i | S 201 {} i | S 300 00bf i", "be".repeat(255), "be".repeat(255))),
+		(single(".addr 0x300; NOP; .addr 0x0; .du8 1; .align 1024;"), "V overflow | S 300 00bf i | S 0 01 i".into()),
+		(single(".addr 0xFFFFFC01; .align 512; .align 1024;"), format!("V ok | S fffffc01 {} i | S fffffe00 {} i", "be".repeat(511), "be".repeat(512))),
 	]
 }
 
